@@ -18,6 +18,8 @@
 //!                                   requests of <kib> KiB one after the other: each must fail with a timeout in time
 //!   rqwrap <calls>                  a call stays outstanding while <calls> more are made, then its late reply arrives just before the
 //!                                   reply to one more call (thorough tier, and whenever a proof obligation of the property is broken)
+//!   rqmany <n>                      nobody is bound: n concurrent calls time out, so does one more; then a replier binds and
+//!                                   three more calls on the same requestor are answered
 //!   rqdead <n> <victim>            n requestor streams, each on a connection of its own, have one request in flight (all with
 //!                                   the same req_id: every stream counts from 0); the connection of requestor <victim> is
 //!                                   cut; the replier answers the victim's request first (the router finds the dead sink and
@@ -415,6 +417,44 @@ async fn run_stall_concurrent(addr: SocketAddr, certs: &Certs, n: usize, kib: us
     Ok(outs.join(","))
 }
 
+/// `rqmany <n>`: nobody is bound to the topic; n calls on clones of one requestor all time out; so does one more (however
+/// many went unanswered before); then a replier binds and three further calls on the same requestor are answered.
+/// Line: `timeout | timeout | ok,ok,ok` (the first field is `timeout` when all n calls timed out).
+async fn run_many(addr: SocketAddr, certs: &Certs, n: usize) -> anyhow::Result<String> {
+    let topic = format!("/verif/rpc{}", TOPIC.fetch_add(1, Ordering::SeqCst));
+    let client = client(addr, certs, BackoffStrategy::constant().with_max_attempts(0)).await?;
+    let mut rq = client.requestor(&topic).with_request_encoder(StringCodec).with_reply_decoder(StringCodec).with_request_timeout(1500u64)?.open().await?;
+    let mut hs = vec![];
+    for i in 0..n {
+        let mut r = rq.clone();
+        hs.push(tokio::spawn(async move { r.request(format!("u{i}")).await }));
+    }
+    let mut other: Vec<String> = vec![];
+    for h in hs {
+        match tokio::time::timeout(Duration::from_secs(15), h).await {
+            Err(_) => other.push("hang".to_string()),
+            Ok(Err(_)) => other.push("panic".to_string()),
+            Ok(Ok(res)) => { let o = outcome(&res, "?"); if o != "timeout" { other.push(o); } }
+        }
+    }
+    let first = if other.is_empty() { "timeout".to_string() } else { other[0].clone() };
+    let one_more = match tokio::time::timeout(Duration::from_secs(8), rq.request("one-more".to_string())).await { Err(_) => "hang".to_string(), Ok(res) => outcome(&res, "?") };
+    // now somebody answers
+    let c2 = crate::e2e::client(addr, certs, BackoffStrategy::constant().with_max_attempts(0)).await?;
+    let mut replier = c2.replier(&topic).with_request_decoder(StringCodec).with_reply_encoder(StringCodec)
+        .with_handler(|req: String| async move { Ok::<_, anyhow::Error>(format!("r:{req}")) }).open().await?;
+    let rep = tokio::spawn(async move { let _ = replier.listen().await; });
+    // (the requests nobody answered are handed to it first; their replies find no caller)
+    tokio::time::sleep(Duration::from_millis(1200)).await;
+    let mut last = vec![];
+    for i in 0..3 {
+        let want = format!("after{i}");
+        last.push(match tokio::time::timeout(Duration::from_secs(8), rq.request(want.clone())).await { Err(_) => "hang".to_string(), Ok(res) => outcome(&res, &want) });
+    }
+    rep.abort();
+    Ok(format!("{first} | {one_more} | {}", last.join(",")))
+}
+
 async fn run_reuse(addr: SocketAddr, certs: &Certs, rounds: usize) -> anyhow::Result<String> {
     let mut outs = vec![];
     for _ in 0..rounds {
@@ -473,15 +513,17 @@ pub fn run(cfg: &Cfg) {
         cases.push("rqwrap 255".into());
         if cfg.tier == Tier::Thorough || searching() { cases.push("rqwrap 131071".into()); }
         cases.push("rqstallc 16 900".into());
+        cases.push("rqmany 1100".into());
         cases.push("rq 2 1 400 rev l,l".into());
         cases.push("rq 1 4 400 rev l,r,d,u".into());
     }
     for c in &cases {
         let t: Vec<&str> = c.split(' ').collect();
-        if t[0] == "rqstallc" || t[0] == "rqwrap" || t[0] == "rqdead" || t[0] == "rqcut" || t[0] == "rqreuse" || t[0] == "rqstall" || t[0] == "rqlate" || t[0] == "rqstagger" {
+        if t[0] == "rqmany" || t[0] == "rqstallc" || t[0] == "rqwrap" || t[0] == "rqdead" || t[0] == "rqcut" || t[0] == "rqreuse" || t[0] == "rqstall" || t[0] == "rqlate" || t[0] == "rqstagger" {
             let res = rt.block_on(async {
                 tokio::time::timeout(Duration::from_secs(90), async {
                     if t[0] == "rqstallc" { run_stall_concurrent(addr, &certs, t[1].parse()?, t[2].parse()?).await }
+                    else if t[0] == "rqmany" { run_many(addr, &certs, t[1].parse()?).await }
                     else if t[0] == "rqwrap" { run_wrap(addr, &certs, t[1].parse()?).await }
                     else if t[0] == "rqdead" { run_dead(addr, &certs, t[1].parse()?, t[2].parse()?).await }
                     else if t[0] == "rqcut" { run_cut(addr, &certs, t[1].parse()?, t[2].parse()?).await }
@@ -503,7 +545,7 @@ pub fn run(cfg: &Cfg) {
                         if o.starts_with("wrong") { m = Err(format!("{tag}: request() returned another request's reply ({o}) [{line}]")); break; }
                         if o.starts_with("late") { m = Err(format!("{tag}: a request that cannot be handed over (the replier reads nothing, other clones are stuck in the same send) reported its timeout late ({o}) [{line}]")); break; }
                         if o == "hang" { m = Err(format!("{tag}: a request whose reply cannot arrive did not fail with a timeout error: request() never returned [{line}]")); break; }
-                        let want = if ((t[0] == "rqreuse" || t[0] == "rqlate") && j % 3 == 0) || t[0] == "rqstall" || t[0] == "rqstallc" { "timeout" } else { "ok" };
+                        let want = if ((t[0] == "rqreuse" || t[0] == "rqlate") && j % 3 == 0) || t[0] == "rqstall" || t[0] == "rqstallc" || (t[0] == "rqmany" && j < 2) { "timeout" } else { "ok" };
                         if o != want { m = Err(format!("{tag}: call {j} ended with {o}, expected {want} [{line}]")); break; }
                     }
                     (line, m)
